@@ -1,6 +1,7 @@
 import SignaloModel.Driver.Filters
 import SignaloModel.Driver.Floats
 import SignaloModel.Proofs.PeekProofs
+import SignaloModel.Proofs.PeekRaw
 import SignaloModel.Model.Pipes
 import SignaloModel.Model.PipesSink
 import SignaloModel.Model.PipeRegistry
@@ -99,8 +100,28 @@ def parseExprStr (s : String) : Option (Expr V) :=
 /-- answers of the plain machine to `k` pulls -/
 def exprPulls (e : Expr V) (k : Nat) : List (Option V) := pulls e.compile.src e.compile.st k
 
+/-- `burst[1,-,2]`: scripted raw answers (`-` = an end marker) -/
+def parseBurst (s : String) : Option (List (Option V)) :=
+  if s.startsWith "burst[" then
+    let inner : String := String.ofList ((s.toList.drop 6).dropLast)
+    if inner.isEmpty then some [] else
+    (inner.splitOn ",").mapM (fun t => if t == "-" then some none else (V.parse t).map some)
+  else none
+
+/-- the scripted source as a machine: one raw answer per pull, end markers for ever once the script is used up -/
+def burstSrc : Src V :=
+  { σ := List (Option V), next := fun l => match l with | [] => (none, []) | o :: r => (o, r) }
+
 def srcModelAnswer (i : SrcInst) (op : String) : Option V :=
   let log := i.log ++ [op]
+  match i.burst with
+  | some items =>
+    if i.top == "peek" then ((runPeek burstSrc { st := items, peeked := none } (log.map (· == "peek"))).getLast?).getD none
+    else
+      let k := (log.filter (· == "pull")).length
+      if op == "cached" then (if (i.log.filter (· == "pull")).length == 0 then none else ((pulls burstSrc items k).getLast?).getD none)
+      else ((pulls burstSrc items k).getLast?).getD none
+  | none =>
   match i.top with
   | "peek" => ((runPeek i.e.compile.src { st := i.e.compile.st, peeked := none } (log.map (· == "peek"))).getLast?).getD none
   | _ =>
@@ -112,6 +133,14 @@ def srcModelAnswer (i : SrcInst) (op : String) : Option V :=
 /-- specification: the iterator analogue (`Expr.den`) -/
 def srcSpecAnswer (i : SrcInst) (op : String) : Option V :=
   let consumed := (i.log.filter (· == "pull")).length
+  match i.burst with
+  | some items =>
+    -- `Peekable` over the raw answers: with `k` consumed, `peek` and `pull` both report raw answer `k`
+    let raw (k : Nat) : Option V := (items[k]?).getD none
+    if op == "cached" then (if consumed == 0 then none else raw (consumed - 1))
+    else if i.top == "peek" then ((peekSpecRaw raw 0 ((i.log ++ [op]).map (· == "peek"))).getLast?).getD none
+    else raw consumed
+  | none =>
   match op with
   | "cached" => if consumed == 0 then none else i.e.den.answer (consumed - 1)
   | _ =>
@@ -140,7 +169,11 @@ def stepSourceOp (d : DState) (op : String) (toks impl : List String) : Option (
   let implS := " ".intercalate impl
   match toks with
   | ["new", id, top, expr] =>
-    if top == "src" || top == "peek" || top == "scache" then do
+    if (top == "src" || top == "peek" || top == "scache") && expr.startsWith "burst[" then do
+      let items ← parseBurst expr
+      let d := (d.putSrc (← id.toNat?) { e := .iter [], top := top, burst := some items }).flag "src.burst"
+      some (report d op { model := "ok", impl := implS, kind := top })
+    else if top == "src" || top == "peek" || top == "scache" then do
       let e ← parseExprStr expr
       let d := (exprFlags e).foldl DState.flag (d.putSrc (← id.toNat?) { e := e, top := top })
       some (report d op { model := "ok", impl := implS, kind := top })
